@@ -27,6 +27,14 @@ type c11Job struct {
 }
 
 func c11Program(r *fw.Rand) string {
+	if r.P(1, 8) {
+		// computed bodies and function bodies that use temporaries of the same names in every VM
+		return r.Pick([]string{
+			"&ta = (hp = 50) + 1; ta", "hp = 1; &tb = hp + 1; tb", "&tc = (tmp = d6) + tmp; tc + tc", "tmp = 3; &td = tmp * 2; td",
+			"func fe() { hp = 9; hp + 1 }; fe()", "hp = 2; func ff() { hp }; ff()", "&tg = this.base + 1; &tg.base = 10; tg", "&th = this.base; th",
+			"&ti = (acc = [1]) + acc; ti", "acc = [7]; &tj = acc + [1]; tj",
+		})
+	}
 	switch r.Intn(17) {
 	case 0, 1:
 		return gen.DiceProgram(r)
